@@ -1124,9 +1124,22 @@ func (s *State) evalForExpression(fe *ast.ForExpression) object.Object {
 			if log.LogVerbose() {
 				log.LogVf("for %s is object.TRUE, running body", fe.Condition.Value().DebugString())
 			}
-			lastEval = s.evalInternal(fe.Body)
-			if rt := lastEval.Type(); rt == object.RETURN || rt == object.ERROR {
-				return lastEval
+			nextEval := s.evalInternal(fe.Body)
+			switch nextEval.Type() {
+			case object.ERROR:
+				return nextEval
+			case object.RETURN:
+				r := nextEval.(object.ReturnValue)
+				switch r.ControlType {
+				case token.BREAK:
+					return lastEval
+				case token.CONTINUE:
+					continue
+				default: // return (or anything unexpected) bubbles up like in the other loop forms.
+					return r
+				}
+			default:
+				lastEval = nextEval
 			}
 		case object.FALSE, object.NULL:
 			if log.LogVerbose() {
